@@ -7,8 +7,8 @@ wrappers), plain words, raw entities, arbitrary non-surrogate Unicode and newlin
 require_protocol, permitted_protocols (list or set), extra_params (str or callable), text as str or bytes.
 
 Oracle: the output is scanned by a strict tokenizer that accepts only `<a href="H"PARAMS>L</a>` with
-PARAMS = the extra text the case asked for, optionally followed by ` title="T"`; every other `<`, `>`, `"`
-or `'` is a failure.  Walking the tokens against E = xhtml_escape(input):
+PARAMS = whitespace-separated name="value" attributes equal (as a list) to the extra attributes the case asked for,
+optionally followed by title="T", with optional trailing whitespace; every other `<`, `>`, `"` or `'` is a failure.  Walking the tokens against E = xhtml_escape(input):
   (a) text outside anchors is copied from E unchanged and each anchor stands for a substring U of E at the
       same position, with U == H, or H == "http://" + U and U starts with "www." (protocol-less link);
       without shortening L == U; with shortening L == U or L == P + "..." with P a prefix of U;
@@ -23,6 +23,13 @@ Known finding F-C22-shorten-splits-entity (open): with shorten=True the label pr
 entity (`http://a.b/abcde&am...`, `...&quot...`).  Its sig `C22.entity_split.shorten_label_cut` is used only
 when shorten is on, the label ends with "...", and the *only* broken '&' of the label is the last one of
 the prefix, cut short of an entity that U continues; every other split keeps the sig `C22.entity_split`.
+
+Corrections:
+  * tag_shape over-reach (false alarm on a property-preserving change): the oracle used to require the exact text
+    `" " + extra.strip()` after the href, so a linkify that emits `<a href="x">` instead of `<a href="x" >` for a
+    callable returning "" was reported.  Neither the statement nor the docs fix insignificant whitespace inside the
+    tag; the tag is now read as an HTML tokenizer would (whitespace-separated name="value" attributes, optional
+    trailing whitespace) and the attribute list is compared.  The oracle never counts callback invocations.
 
 Sensitivity (quick tier, seed 1, scratch copy of /repo/tornado):
   M1 `if proto and proto not in permitted_protocols` -> `if False`      caught  C22.href_protocol_not_permitted (ftp://a.b)
@@ -41,8 +48,12 @@ Sensitivity (quick tier, seed 1, scratch copy of /repo/tornado):
      labels no_gain_full_label / www_no_gain_full_label count the cases that reach that branch.
   M10 shortened label rebuilt from `proto + "://"` instead of `url[:proto_len]` (found by independent mutation testing;
      previously caught at 2 of 3 seeds)            caught at every seed by the finite "grid" part (6 schemes x 1/2/3
-     slashes x 8 host lengths x 8 path shapes x shorten x 3 option sets x 2 embeddings) -> C22.label_not_prefix on
+     slashes x 8 host lengths x 8 path shapes x shorten x 3 option sets x 3 embeddings, the third repeating the URL in several spellings) -> C22.label_not_prefix on
      `http:/hhhhhhhhhhhhhhhhhh.com/a` style inputs (one or three slashes, > 30 chars, with a path).
+  M11 shortened labels memoised per call keyed by HREF (round-9 "state carried over" mutant: `www.X` and `http://www.X`
+     share an href, so the second anchor got the first one's label)   caught at seeds 1,2,3 by the grid's third embedding
+     (`www.X http://www.X, www.X. HTTP://www.X (https://www.X)`) and by the `url_respelled` fragments ->
+     C22.label_not_prefix; labels same_href_twice / same_long_href_twice_shorten count the cases.
 The repaired heuristic proposed in findings_inbox/C22-shorten-splits-entity.md makes the check quiet with
 0 exclusions at seeds 1..5.
 """
@@ -114,6 +125,21 @@ url_no_gain = st.builds(
     st.sampled_from(["www.", "www.", "www.", "www.a-b.", "http://", "https://www.", "ftp://", "HTTP://"]),
     st.integers(24, 44), st.sampled_from([".com", ".example.org", ".b"]), st.sampled_from(NO_GAIN_TAILS))
 url_any = st.one_of(url_plain, url_plain, url_www, url_cut_long, url_cut_long, url_cut_seg, url_cut_seg, url_no_gain, url_no_gain, url_no_gain)
+# reuse within one call: the same resource mentioned several times in one text, in different spellings whose
+# hrefs coincide or nearly coincide (www.X and http://www.X share the href http://www.X), with trailing
+# punctuation.  Every anchor is still judged on its own against the escaped input at its position.
+RESPELL_PREFIXES = ["www.", "http://www.", "www.", "http://www.", "HTTP://www.", "https://www.", "http:/www.", "http:///www.", "ftp://www."]
+RESPELL_SEPS = [" ", ", ", " (", ") ", ".\n", " and ", "; ", "! ", "\t", " - see ", ">", "<"]
+respell_core = st.one_of(
+    st.builds(lambda k, tld, tail: "h" * k + tld + "/" + tail, st.integers(1, 40), st.sampled_from([".com", ".example.org"]),
+              st.one_of(st.sampled_from(NO_GAIN_TAILS), filler, path_s)),
+    st.builds(lambda h, p: h + ("/" + p if p else ""), st.sampled_from(HOSTS), path_s),
+    st.builds(lambda k, c, tail: "a" * k + c + tail, st.integers(0, 45), cut_char, filler),
+)
+url_respelled = st.builds(
+    lambda core, prefixes, seps: "".join(p + core + sp for p, sp in zip(prefixes, seps)),
+    respell_core, st.lists(st.sampled_from(RESPELL_PREFIXES), min_size=2, max_size=4),
+    st.lists(st.sampled_from(RESPELL_SEPS), min_size=4, max_size=4))
 
 TRAIL = ["", "", "", ".", ",", "!", "?", ")", ";", ":", "...", "'", "\"", ">", "&", "&amp;", "/", "("]
 WRAP = [("", ""), ("", ""), ("(", ")"), ("<", ">"), ("\"", "\""), ("'", "'"), ("[", "]"), ("see ", ""), ("x", ""), ("&", ";")]
@@ -125,7 +151,8 @@ other_fragment = st.one_of(
     st.text(st.characters(exclude_categories=("Cs",)), max_size=8),
 )
 SEP = ["", " ", " ", "\n", ",", ".", "(", ")", "\u3000", ":", "&"]
-piece = st.tuples(st.one_of(url_fragment, url_fragment, other_fragment), st.sampled_from(SEP))
+piece = st.tuples(st.one_of(url_fragment, url_fragment, url_fragment, url_fragment, other_fragment, other_fragment, url_respelled),
+                  st.sampled_from(SEP))
 text_s = st.lists(piece, min_size=1, max_size=8).map(lambda ps: "".join(f + s for f, s in ps))
 
 PERMITTED = [["http", "https"], ["http", "https"], ["http"], ["http", "ftp", "mailto"], [], ["https", "ftp"],
@@ -153,11 +180,27 @@ TAG_OPEN = '<a href="'
 RAW_SCHEME_RE = re.compile(r"([\w-]+):/{1,3}[^\s/]")
 
 
-def expected_params(extra, href):
+def expected_extra_text(extra, href):
+    """The extra attribute text the case asked for (str form, or what the callable returns for this href).
+    The callables are pure functions of the href, so nothing depends on how often linkify invokes them."""
     kind, v = extra
-    if kind == "str":
-        return (" " + v.strip()) if v else ""
-    return " " + CALLBACKS[v](href).strip()
+    return v.strip() if kind == "str" else CALLBACKS[v](href).strip()
+
+
+ATTR_RE = re.compile(r'\s+([A-Za-z][\w-]*)="([^"<>]*)"')
+
+
+def parse_attrs(text):
+    """' a="1"  b="2" ' -> [("a", "1"), ("b", "2")]; None when the text is not whitespace-separated attributes."""
+    out = []
+    pos = 0
+    while True:
+        m = ATTR_RE.match(text, pos)
+        if m is None:
+            break
+        out.append((m.group(1), m.group(2)))
+        pos = m.end()
+    return out if text[pos:].strip() == "" else None
 
 
 def broken_amps(s):
@@ -275,16 +318,23 @@ def run_case(ctx, case):
             ctx.note(case, labels, True)
             return
         pos += len(U)
-        # ---- tag parameters: the requested extra text, optionally a title
-        want = expected_params(extra, H)
+        # ---- tag parameters, read the way an HTML tokenizer reads them: whitespace-separated name="value"
+        # attributes, optional trailing whitespace.  Insignificant whitespace inside the tag is not pinned:
+        # `<a href="x">` and `<a href="x" >` are the same tag.
         T = None
-        if params != want:
-            m = re.fullmatch(r' title="([^"]*)"', params[len(want):]) if params.startswith(want) else None
-            if m is None:
-                ctx.fail("C22.tag_shape", dict(detail, href=H, params=params, want_prefix=want))
-            else:
-                T = m.group(1)
+        got_attrs = parse_attrs(params)
+        want_attrs = parse_attrs(" " + expected_extra_text(extra, H))
+        assert want_attrs is not None
+        if got_attrs is None:
+            ctx.fail("C22.tag_shape", dict(detail, href=H, params=params, why="not a list of name=\"value\" attributes"))
+        elif got_attrs != want_attrs:
+            if got_attrs[:-1] == want_attrs and got_attrs[-1][0] == "title":
+                T = got_attrs[-1][1]
                 labels.add("has_title")
+            else:
+                ctx.fail("C22.tag_shape", dict(detail, href=H, params=params, got_attributes=got_attrs, want_attributes=want_attrs))
+        if extra[0] == "cb" and not want_attrs:
+            labels.add("callable_extra_blank")
         # ---- (a) label
         if shorten and L == U and len(U) > 30 and clip_candidate(U) != U:
             # clipping was possible but would not have made the label shorter: the full text must be kept
@@ -353,6 +403,11 @@ def run_case(ctx, case):
         labels.add("has_anchor")
     if anchors >= 2:
         labels.add("multi_anchor")
+        hrefs = [t[1] for t in toks if t[0] == "a"]
+        if len(set(hrefs)) < len(hrefs):
+            labels.add("same_href_twice")
+            if shorten and any(len(h) > 37 for h in hrefs if hrefs.count(h) > 1):
+                labels.add("same_long_href_twice_shorten")
     if case["as_bytes"]:
         labels.add("bytes_input")
     if extra[0] == "cb":
@@ -383,7 +438,11 @@ def grid_cases():
                     url = ("www." + host if scheme == "www" else scheme + ":" + slashes + host) + path
                     for shorten in (True, False):
                         for require_protocol, permitted, extra in GRID_OPTIONS:
-                            for text in (url, "see (" + url + "), ok"):
+                            if scheme == "www":
+                                again = "%s http://%s, %s. HTTP://%s (https://%s)" % (url, url, url, url, url)
+                            else:
+                                again = "%s %s, (%s). www.%s%s" % (url, url, url, host, path)
+                            for text in (url, "see (" + url + "), ok", again):
                                 yield {"text": text, "shorten": shorten, "require_protocol": require_protocol,
                                        "permitted": permitted, "as_set": False, "extra": extra, "as_bytes": False}
 
